@@ -73,10 +73,23 @@ def css_rgba(value):
     try:
         c = _c3.parse_color(v)
     except Exception:
+        c = None
+    if isinstance(c, _c3.RGBA):
+        return (c.red * 255.0, c.green * 255.0, c.blue * 255.0, c.alpha)
+    if c is not None:
+        return None  # currentcolor
+    # CSS Color 4 spellings of sRGB colours (space-separated components, "/ alpha", alpha inside rgb())
+    try:
+        import tinycss2.color4 as _c4
+
+        c = _c4.parse_color(v)
+        if c is None or isinstance(c, str) or c.space not in ("srgb", "hsl"):
+            return None
+        c = c.to("srgb")
+        r, g, b = c.coordinates
+        return (r * 255.0, g * 255.0, b * 255.0, c.alpha)
+    except Exception:
         return None
-    if c is None or not isinstance(c, _c3.RGBA):
-        return None
-    return (c.red * 255.0, c.green * 255.0, c.blue * 255.0, c.alpha)
 
 
 def css_rgb(value, over=None):
